@@ -441,4 +441,87 @@ theorem mergeRight_total (s : SSt) (l : Nat) (hw : WF s) (ho : Owns s.st l)
     ⟨hw.ic, hw.mem, a, b⟩ ho (le_trans (nOwn_le s.st) hle)
   exact ⟨t1.trans (by rw [setUpOut_fo]), t2, t3, t4⟩
 
+/-! ### a feasible start is a fixed point of `satisfy` -/
+
+/-- every constraint holds as the solver evaluates it -/
+def AllSat (st : St) : Prop := ∀ ci : Nat, 0 ≤ rawSlack st ci
+
+theorem mergeLeftLoop_idle (fuel : Nat) (s : SSt) (r : Nat) (h : AllSat s.st) (hf : 0 < fuel) :
+    (mergeLeftLoop fuel s r).st = s.st ∧ (mergeLeftLoop fuel s r).hs.fuelOut = s.hs.fuelOut := by
+  cases fuel with
+  | zero => omega
+  | succ fuel =>
+    unfold mergeLeftLoop
+    simp only
+    split
+    · exact ⟨rfl, findMinIn_fo _ _ _⟩
+    · rename_i c hc
+      rw [if_neg (not_lt.2 (h c))]
+      refine ⟨rfl, ?_⟩
+      show ((findMinIn s.st s.hs r).1.noteCmp (rawSlack s.st c)).fuelOut = s.hs.fuelOut
+      rw [noteCmp_fo, findMinIn_fo]
+
+theorem mergeLeft_idle (s : SSt) (r : Nat) (h : AllSat s.st) :
+    (mergeLeft s r).st = s.st ∧ (mergeLeft s r).hs.fuelOut = s.hs.fuelOut := by
+  rw [mergeLeft_eq]
+  obtain ⟨a, b⟩ := mergeLeftLoop_idle (loopFuel s.st) { st := s.st, hs := setUpIn s.st (stampL s.hs r) r } r h
+    (by unfold loopFuel; omega)
+  exact ⟨a, b.trans (by rw [setUpIn_fo]; rfl)⟩
+
+theorem satisfyStep_idle (s : SSt) (v : Nat) (h : AllSat s.st) :
+    (satisfyStep s v).st = s.st ∧ (satisfyStep s v).hs.fuelOut = s.hs.fuelOut := by
+  unfold satisfyStep
+  simp only
+  split
+  · exact ⟨rfl, rfl⟩
+  · exact mergeLeft_idle s _ h
+
+theorem foldl_satisfyStep_idle : ∀ (l : List Nat) (s : SSt), AllSat s.st →
+    (l.foldl satisfyStep s).st = s.st ∧ (l.foldl satisfyStep s).hs.fuelOut = s.hs.fuelOut
+  | [], _, _ => ⟨rfl, rfl⟩
+  | v :: rest, s, h => by
+    rw [List.foldl_cons]
+    obtain ⟨a, b⟩ := satisfyStep_idle s v h
+    obtain ⟨c, d⟩ := foldl_satisfyStep_idle rest (satisfyStep s v) (by rw [a]; exact h)
+    exact ⟨c.trans a, d.trans b⟩
+
+/-- if every constraint holds in a state, `satisfy()` merges nothing: it returns normally (given the fuel
+    flags are clear and `totalOrder` is total) and the variable / constraint / block arrays are unchanged -/
+theorem satisfy_idle (s : SSt) (h : AllSat s.st) (hok : (totalOrder s.st).2 = true)
+    (h1 : s.hs.fuelOut = false) (h2 : s.st.fuelOut = false) :
+    ∃ s', s.satisfy = (s', .ok s.st.positions (s.st.cons.any (·.active))) ∧ s'.st = s.st.cleanup := by
+  have hcore : (satisfyCore s).st = s.st.cleanup ∧ (satisfyCore s).hs.fuelOut = false := by
+    unfold satisfyCore SSt.cleanup
+    simp only [hok, if_true]
+    obtain ⟨a, b⟩ := foldl_satisfyStep_idle (totalOrder s.st).1 s h
+    exact ⟨by rw [a], b.trans h1⟩
+  have hscan : scanStatic (satisfyCore s).st = true := by
+    rw [scanStatic_iff]
+    intro ci _
+    have : rawSlack (satisfyCore s).st ci = rawSlack s.st ci := by rw [hcore.1]; rfl
+    rw [this]
+    have := h ci
+    unfold ZERO_UPPERBOUND
+    linarith
+  have hbad : ({ satisfyCore s with hs := noteScan (satisfyCore s).st (satisfyCore s).hs } : SSt).bad = false := by
+    unfold SSt.bad
+    simp only
+    have e1 : (noteScan (satisfyCore s).st (satisfyCore s).hs).fuelOut = (satisfyCore s).hs.fuelOut := by
+      unfold noteScan
+      have : ∀ (l : List Nat) (a : HS), (l.foldl (fun hs ci =>
+          if rawSlack (satisfyCore s).st ci < 0 then hs.note (rawSlack (satisfyCore s).st ci - ZERO_UPPERBOUND) else hs) a).fuelOut
+            = a.fuelOut := by
+        intro l
+        induction l with
+        | nil => intro a; rfl
+        | cons c r ih => intro a; rw [List.foldl_cons, ih]; split <;> rfl
+      exact this _ _
+    have e2 : (satisfyCore s).st.fuelOut = false := by rw [hcore.1]; exact h2
+    rw [e1, hcore.2, e2]; rfl
+  refine ⟨{ satisfyCore s with hs := noteScan (satisfyCore s).st (satisfyCore s).hs }, ?_, hcore.1⟩
+  unfold SSt.satisfy
+  simp only
+  rw [if_neg (by rw [hbad]; simp), if_pos hscan, hcore.1]
+  rfl
+
 end AdaptaVerif.Lemmas.VpscStaticMem
